@@ -12,12 +12,20 @@
                     1..n, every \redN\greenN\blueN; string equal to the table's r,g,b;
      C12_fonts      finite: each font number 1..10 has its entry \f(N-1) with the mapped name; the
                     number<->name maps agree.
+     C12_document   (Proofs/ColorWalk.v) at document level, for EVERY document (single-, multi-section, figure): every
+                    colour index the encoder writes - text, background, all four cell borders - in every row and
+                    paragraph of every page is color_index (Some (collect_colors d)) c for a non-empty colour name c
+                    that collect_colors d contains; i.e. the palette in force is complete for everything the
+                    pipeline looks up (column slicing, per-page re-basing and the border post-processing only ever
+                    select entries of the user's matrices);
+     C12_document_resolves   hence (with C12_resolves) each such index points at the master-table entry of the
+                    requested colour inside the document's own dense table.
    The context in force on every encoding path is collect_colors d (Document.encode); that this is what
    the CODE does on the multi-section and figure paths is checked by correspondence and by check_c12,
    which resolves every index of the parsed output through the output's own table. *)
 From Coq Require Import Ascii String.
 From Coq Require Import List NArith ZArith Bool Arith.
-From V Require Import Str Tok Tables Items Read Doc Broadcast Encode Pipeline Document Checks ColorProofs.
+From V Require Import Str Tok Tables Items Read Doc Broadcast Encode Pipeline Document Checks ColorProofs ColorWalk.
 Import ListNotations.
 Local Open Scope string_scope.
 Local Open Scope list_scope.
@@ -30,6 +38,22 @@ Theorem C12_resolves : forall used c,
               /\ In (c, e) color_table.
 Proof. exact color_index_resolves. Qed.
 Print Assumptions C12_resolves.
+
+Theorem C12_document : forall d pages,
+  document_pages (Some (collect_colors d)) d = Ok pages ->
+  Forall (item_c (Some (collect_colors d)) (fun c => In c (collect_colors d))) (concat pages).
+Proof. exact document_indices. Qed.
+Print Assumptions C12_document.
+
+Theorem C12_document_resolves : forall d o,
+  all_valid (collect_colors d) = true ->
+  idx_from (Some (collect_colors d)) (fun c => In c (collect_colors d)) o ->
+  forall z, o = Some z ->
+  exists c, In c (collect_colors d) /\ z = color_index (Some (collect_colors d)) c /\
+    (significant c = true -> forall m, master_index c = Some m ->
+       exists k e, z = Z.of_nat (S k) /\ nth_error (sorted_palette (collect_colors d)) k = Some (c, e) /\ In (c, e) color_table).
+Proof. exact index_resolves. Qed.
+Print Assumptions C12_document_resolves.
 
 Theorem C12_default : forall ctx c, significant c = false -> color_index ctx c = 0%Z.
 Proof. exact color_index_default. Qed.
